@@ -33,6 +33,8 @@ def suite_ok():
 
 def main():
     args = sys.argv[1:]
+    if "-h" in args or "--help" in args:
+        print(__doc__); return 0
     tier, seeds, only, which, allchecks, match, tag = "quick", [1], None, "mutants", False, None, ""
     skip_suite = False
     i = 0
